@@ -1,6 +1,6 @@
 (** C04 — property theorems only. The model is C03/Model.v ([check_operation_document]); [spec_valid] is the
     reference validator of C03/Spec.v (every implemented rule on every syntactic position). *)
-From V Require Import Base.Util Gql.Ast C03.Model C03.Spec C03.Witness C03.Proofs C03.Proofs2 C03.Proofs3 C04.Proofs.
+From V Require Import Base.Util Gql.Ast C03.Model C03.Spec C03.Witness C03.Proofs C03.Proofs2 C03.Proofs3 C04.Proofs C04.Proofs2.
 
 (** check_type_compatibility accepts exactly the pairs the specification's AreTypesCompatible accepts *)
 Theorem C04_type_compat_complete : forall vt lt, types_compatible vt lt = true -> type_compat vt lt = true.
@@ -50,6 +50,25 @@ Print Assumptions C04_check_directives_complete.
 Theorem C04_guard_satisfiable : schema_wf w_schema_0 = true /\ input_types_closed w_schema_0 = true.
 Proof. split; vm_compute; reflexivity. Qed.
 Print Assumptions C04_guard_satisfiable.
+
+(** The converse of C03_sound. [schema_closed]: further parts of "the schema passed check" (unique type names, field
+    and argument types exist, union members are objects). [doc_fine_vis]: every implemented rule holds on the sites
+    reached by following spreads from the operations ([rule_ok_vis]), variables are usable without relying on a default
+    of the position, written argument lists are non-empty (grammar), root operation types are object types.
+    The proof includes that [doc_fuel] suffices: the model never answers OutOfFuel on such a document.
+    The subscription rule stays outside (the implementation's own count is a hypothesis), as in C03. *)
+Theorem C04_complete_vis : forall S D,
+  schema_wf S = true -> schema_closed S = true -> doc_fine_vis S D = true ->
+  (forall o, In o (doc_ops D) -> op_type o = Subscription ->
+     count_fields (doc_fuel D) (doc_frags D) [] (op_sel o) <= 1) ->
+  check_operation_document S D = [].
+Proof. exact complete_vis. Qed.
+Print Assumptions C04_complete_vis.
+
+Theorem C04_complete_vis_guard_satisfiable :
+  schema_wf w_schema_0 = true /\ schema_closed w_schema_0 = true /\ doc_fine_vis w_schema_0 w_doc_14 = true.
+Proof. repeat split; vm_compute; reflexivity. Qed.
+Print Assumptions C04_complete_vis_guard_satisfiable.
 
 (** spec-valid documents the current code rejects (known findings) *)
 Theorem C04_variable_default_position_refuted :
